@@ -3,9 +3,9 @@ CONSTANTS
   M = {1}
   MaxN = 3
   Delays = {0, 1}
-  Actives = {0, 1, 2}
+  Actives = {0, 1}
   Starts = {2}
-  InitBlocks = {1, 3}
+  InitBlocks = {1}
   MaxMsgs = 1
   Slack = 0
   Faults = {}
